@@ -1067,7 +1067,8 @@ int KSI_AggregationHashChain_calculateShape(const KSI_AggregationHashChain *chn,
 	tmp = 1;
 
 	i = KSI_HashChainLinkList_length(chn->chain);
-	if (i > (sizeof(KSI_uint64_t) << 3) + 1) {
+	/* The shape is the direction bits prefixed with a single 1-bit, thus at most 63 links fit. */
+	if (i >= (sizeof(KSI_uint64_t) << 3)) {
 		res = KSI_INVALID_STATE;
 		goto cleanup;
 	}
